@@ -432,6 +432,9 @@ def run(ck):
     for mode in ("Diffuse", "Target"):
         analyse_faults(ck, mode)
         analyse_write_faults(ck, mode)
+    from contracts import cli_model
+
+    cli_model.obligations(ck, "C17")  # the command line front end hands compute() the output name and the --write-stages flag
     ck.bounded_run("fresh table per run; results file left by an earlier run (thorough)", lambda: native_tables(ck),
                    design="results_table.init twice in one process with the first table filled in between; thorough: compute() with 60 events onto the file of a 1500-event run, staged writing on")
     if ck.tier == "thorough":
